@@ -200,8 +200,8 @@ pub fn build(quick: bool) -> PropRun {
         let si = std::sync::Arc::new(ScriptInfo::new(ops));
         let dev = if quick { 6 } else { 9 };
         let env = LwEnv { fates: &[Fate::Deliver, Fate::Drop, Fate::Dup, Fate::Delay3], deltas: &[20, 0, 2000], dev_rounds: dev, dev_start: 0, max_rounds: dev + crate::props::T_LIVE_ROUNDS, skip_choice: !quick, flush_choice: false, blackouts: &[],
-                          stop_when_idle: true, fair_delta: 20, slow_after: usize::MAX, slow_delta: 250, fuel: 2_000_000 };
-        scs.push(lw_scenario(LwSpec { tag: format!("C06.sender.{}", name), cfg, script: si, env, d: if quick { 2 } else { 3 }, oracles: O_C06B | O_C01 | O_LIVE }));
+                          stop_when_idle: true, fair_delta: 20, slow_after: usize::MAX, slow_delta: 250, fuel: 2_000_000, shifts: &[] };
+        scs.push(lw_scenario(LwSpec { tag: format!("C06.sender.{}", name), cfg, script: si, env, d: if quick { 2 } else { 3 }, oracles: O_C06B | O_C01 | O_LIVE, probe_round: 0 }));
     }
     PropRun { level: "fault_enumeration", scenarios: scs, units, replay_case: Some(replay_case), summary: Summary {
         rule: "(a) every stream of the generator grid (receiver limit x claimed fragment count x id walk x frame id stride x frames per application round x step spacing; every round is flush, frames, step, receive as Client::step/Server::step perform it), 3-10 windows long, is fed to a lone real receiving HalfConnection under a counting allocator: receive-alloc counter <= limit rounded to a fragment, heap growth above the empty connection <= limit + fixed allowance, acknowledgement queue <= 2 windows, nothing leaked; (b) deviation-bounded link-world exploration with small limits: bytes outstanding on the wire never exceed the peer's limit, never more than a window of packets, no packet discarded for lack of memory; distinct = distinct outcome hash".into(),
